@@ -228,6 +228,9 @@ func (h *hctr) EncryptBytes(ciphertext, plaintext []byte) {
 	if alias.InexactOverlap(ciphertext[:len(plaintext)], plaintext) {
 		panic("cipher: invalid buffer overlap")
 	}
+	// only ciphertext[:len(plaintext)] is output; the second hash must not
+	// run over spare room behind it
+	ciphertext = ciphertext[:len(plaintext)]
 
 	var z1, z2 [blockSize]byte
 	// a) z1 generation
@@ -253,6 +256,9 @@ func (h *hctr) DecryptBytes(plaintext, ciphertext []byte) {
 	if alias.InexactOverlap(plaintext[:len(ciphertext)], ciphertext) {
 		panic("cipher: invalid buffer overlap")
 	}
+	// only plaintext[:len(ciphertext)] is output; the second hash must not
+	// run over spare room behind it
+	plaintext = plaintext[:len(ciphertext)]
 
 	var z1, z2 [blockSize]byte
 
